@@ -56,8 +56,15 @@ def gen_template(rng, variant=1, containers=("main",)):
     res = {}
     if rng.random() < 0.3:
         res = {containers[0]: {"limits": {"cpu": "500m"}, "requests": {"memory": "64Mi"}}}
+    # an affinity block that carries no required term (preferences only, or empty) next to a node selector
+    pref = rng.choice(["preferred", "preferred", "empty"]) if terms is None and rng.random() < 0.12 else False
+    if pref and nodesel is None:
+        nodesel = {"role": "w"}
+    # annotations on the template: part of its identity (two templates may differ in nothing else)
+    annots = rng.choice([None, None, None, {"checksum/config": "v%d" % variant}, {"checksum/config": "same"}])
     return K.template(containers=containers, image="img:%d" % variant, node_selector=nodesel, terms=terms,
-                      tolerations=rng.choice(TOLS), resources=res, labels=template_labels(rng))
+                      tolerations=rng.choice(TOLS), resources=res, labels=template_labels(rng), annotations=annots,
+                      preferred_only=pref)
 
 
 def template_labels(rng):
@@ -448,6 +455,11 @@ def gen_eds_world(rng, stats=None, force=None):
     force = force or {}
     n = force.get("n", rng.choice([0, 1, 2, 3, 4, 5, 6, 8, 10, 12]))
     tplA, tplB, tplC = gen_template(rng, 1), gen_template(rng, 2), gen_template(rng, 3)
+    if rng.random() < 0.15:
+        # B is A with another annotation on the pod template and nothing else: a template of its own
+        import copy
+        tplB = copy.deepcopy(tplA)
+        tplB["metadata"]["annotations"] = dict(tplB["metadata"].get("annotations") or {}, **{"checksum/config": "b"})
     if force.get("plain_templates"):
         tplA, tplB, tplC = K.template(image="img:1"), K.template(image="img:2"), K.template(image="img:3")
     scenario = force.get("scenario") or rng.choice(["fresh", "undefaulted", "steady", "steady", "new_template", "canary_running", "canary_running",
